@@ -399,3 +399,59 @@ def _slot_shape(f, e):
             continue
         return None
     return out
+
+
+def u8_absent_statistic_pinned(ctx) -> None:
+    """A statistic of the parent that a factor of the product does not carry contributes 0 from
+    that factor: CartesianProduct.__init__ must pin it, for that child, to min = max = 0.  With
+    the maximum left open the parameter split offers that child non-zero shares of a statistic
+    it cannot have, and the weights no longer add up to the count."""
+    P = ctx.P
+    m = P.need_method("CartesianProduct", "__init__", own=True)
+    f = m.node
+    ctx.analysed(m)
+    loops = [l for l in walk_local(f) if isinstance(l, ast.For) and norm(l.iter) == "parent.extra_parameters" and isinstance(l.target, ast.Name)
+             and C.enclosing_loops(f, l)]
+    if not loops:
+        raise AnalysisError("U8: CartesianProduct.__init__ no longer walks the parent's statistics per child")
+    lp = loops[0]
+    k = lp.target.id
+    outer = C.enclosing_loops(f, lp)[0]
+    tabs = [norm(e) for e in ast.walk(outer.target) if isinstance(e, ast.Name)]
+    # the table of this child: the name bound from self.extra_parameters in the outer loop
+    par = None
+    if isinstance(outer.iter, ast.Call) and norm(outer.iter.func) == "zip" and isinstance(outer.target, ast.Tuple):
+        for a, t in zip(outer.iter.args, outer.target.elts):
+            if norm(a) == "self.extra_parameters" and isinstance(t, ast.Name):
+                par = t.id
+    if par is None:
+        raise AnalysisError("U8: cannot tell which name is the child's statistic table in CartesianProduct.__init__")
+    absent = {f"{k} in {par}": False}
+    for which in ("min_child_sizes", "max_child_sizes"):
+        stores = [st for st in walk_local(lp) for t, v in [(_tv(st))] if t is not None and isinstance(t, ast.Subscript) and isinstance(t.value, ast.Subscript)
+                  and norm(t.value.value) == f"self.{which}" and norm(t.slice) == k]
+        pinned = False
+        for st in stores:
+            t, v = _tv(st)
+            run = C.runs_under(f, st, absent, within=lp)
+            if run is False:
+                continue
+            val = v
+            if isinstance(val, ast.IfExp):
+                tv_ = C.truth(val.test, absent)
+                val = val.body if tv_ is True else val.orelse if tv_ is False else val
+            if run is True and isinstance(val, ast.Constant) and val.value == 0:
+                pinned = True
+        if pinned:
+            ctx.ok("U8", f"a statistic the child does not carry has {which}[child][k] = 0")
+        else:
+            ctx.violation("U8", lp, f"for a statistic `{k}` that is not in the child's table `{par}`, self.{which}[idx][{k}] must be set to 0: the child cannot contribute to it, "
+                          "and the parameter split must not offer it a share")
+
+
+def _tv(st):
+    if isinstance(st, ast.Assign) and len(st.targets) == 1:
+        return st.targets[0], st.value
+    if isinstance(st, ast.AnnAssign):
+        return st.target, st.value
+    return None, None
